@@ -220,45 +220,79 @@ inline void check_unknown(
     }
 }
 
+struct F2 : F0 {}; // never registered
+
 inline void check_final(std::vector<Viol>& out) {
     using namespace yorel::yomm2;
-    // F0, F1 registered; final(F1 object viewed as F0) must be a
-    // method_table_error carrying typeid(F1)
+    // F0, F1 registered, F2 not; final(object of another dynamic type viewed
+    // as F0) must be a method_table_error carrying the dynamic type, for every
+    // form of the argument: F0&, const F0&, and shared_ptr<F0> as non-const
+    // lvalue, const lvalue and rvalue
     hx::unregister_all();
     static class_declaration<F0, hx::P> c0;
     static class_declaration<F1, F0, hx::P> c1;
     hx::Built b;
     hx::do_update(b);
+    using VP = virtual_ptr<F0, hx::P>;
+    using VSP = virtual_ptr<std::shared_ptr<F0>, hx::P>;
+    auto expect_error = [&](const char* form, const std::type_info& dyn, auto&& make) {
+        hx::g_err.reset();
+        bool threw = false;
+        int before = hx::g_bodies_run;
+        try {
+            make();
+        } catch (hx::Thrown&) {
+            threw = true;
+        }
+        bool ok = false;
+        if (threw && hx::g_err)
+            if (auto e = std::get_if<method_table_error>(&*hx::g_err))
+                ok = e->type == (type_id)&dyn;
+        if (!ok || hx::g_bodies_run != before)
+            out.push_back(
+                {"final_wrong_type_not_reported",
+                 std::string("final(") + form + ") threw=" + std::to_string(threw) +
+                     " error=" + err_text(hx::g_err)});
+    };
+    auto expect_accepted = [&](const char* form, auto&& make) {
+        bool threw = false;
+        try {
+            make();
+        } catch (hx::Thrown&) {
+            threw = true;
+        }
+        if (threw)
+            out.push_back({"final_right_type_rejected", std::string("final(") + form + ") threw"});
+    };
     F1 f1;
-    F0& as_f0 = f1;
-    hx::g_err.reset();
-    bool threw = false;
-    try {
-        auto p = virtual_ptr<F0, hx::P>::final(as_f0);
-        (void)p;
-    } catch (hx::Thrown&) {
-        threw = true;
-    }
-    bool ok = false;
-    if (threw && hx::g_err)
-        if (auto e = std::get_if<method_table_error>(&*hx::g_err))
-            ok = e->type == (type_id)&typeid(F1);
-    if (!ok)
-        out.push_back(
-            {"final_wrong_type_not_reported",
-             "final(F1 as F0) threw=" + std::to_string(threw) + " error=" +
-                 err_text(hx::g_err)});
-    // and the right dynamic type is accepted
+    F2 f2;
     F0 f0;
-    threw = false;
-    try {
-        auto p = virtual_ptr<F0, hx::P>::final(f0);
-        (void)p;
-    } catch (hx::Thrown&) {
-        threw = true;
+    {
+        F0& r1 = f1;
+        const F0& cr1 = f1;
+        F0& r2 = f2;
+        expect_error("F1 as F0&", typeid(F1), [&] { (void)VP::final(r1); });
+        expect_error("F1 as const F0&", typeid(F1), [&] { (void)virtual_ptr<const F0, hx::P>::final(cr1); });
+        expect_error("unregistered F2 as F0&", typeid(F2), [&] { (void)VP::final(r2); });
+        const F0& cr0 = f0;
+        expect_accepted("F0 as F0&", [&] { (void)VP::final(f0); });
+        expect_accepted("F0 as const F0&", [&] { (void)virtual_ptr<const F0, hx::P>::final(cr0); });
     }
-    if (threw)
-        out.push_back({"final_right_type_rejected", "final(F0 as F0) threw"});
+    {
+        std::shared_ptr<F0> s1 = std::make_shared<F1>();
+        const std::shared_ptr<F0> cs1 = s1;
+        std::shared_ptr<F0> s2 = std::make_shared<F2>();
+        std::shared_ptr<F0> s0 = std::make_shared<F0>();
+        const std::shared_ptr<F0> cs0 = s0;
+        expect_error("shared_ptr<F0>& owning F1", typeid(F1), [&] { (void)VSP::final(s1); });
+        expect_error("const shared_ptr<F0>& owning F1", typeid(F1), [&] { (void)VSP::final(cs1); });
+        expect_error("shared_ptr<F0>&& owning F1", typeid(F1),
+                     [&] { (void)VSP::final(std::shared_ptr<F0>(s1)); });
+        expect_error("shared_ptr<F0>& owning unregistered F2", typeid(F2), [&] { (void)VSP::final(s2); });
+        expect_accepted("shared_ptr<F0>& owning F0", [&] { (void)VSP::final(s0); });
+        expect_accepted("const shared_ptr<F0>& owning F0", [&] { (void)VSP::final(cs0); });
+        expect_accepted("shared_ptr<F0>&& owning F0", [&] { (void)VSP::final(std::shared_ptr<F0>(s0)); });
+    }
     hx::P::classes.clear();
 }
 
@@ -294,7 +328,7 @@ inline int unknown_main() {
             if (run::g_gate.take(none)) {
                 std::vector<Viol> v;
                 check_final(v);
-                COUNT("final_checks", 2);
+                COUNT("final_checks", 12);
                 for (auto& x : v)
                     run::candidate(x.kind.c_str(), "P 0 | A 0 | R | M", x.detail);
             }
